@@ -27,6 +27,9 @@ RULE = ("scripts = agenda (<= 9 timed environment actions: byte arrivals incl. b
         "without a wake-up fd; fixed boundary enumeration + corpus (D14, D15, D16 histories) + seeded random. "
         "non-trivial = distinct scripts in which at least one request returned something or raised")
 ASSUMPTIONS = [
+    "atomicity of `queued_scheduled_events.sort` is CHECKED, not assumed: the simulation's SpyList lets a scheduled callback of "
+    "another thread (agenda kind K) run between two key calls whenever the sort key is Python-level code; a C-level key gives no "
+    "preemption point, as under the GIL (the model's sort is atomic)",
     "PARTIAL BY NATURE: list.append/pop(0)/extend are atomic under the GIL - the model and the simulation preempt the main "
     "thread only inside select (environment actions fire there or between requests), never inside a bytecode",
     "a thread-safe callback is the one place where the simulation preempts INSIDE a callback: the real callback runs in a helper "
@@ -117,6 +120,28 @@ class TsCall:
         self.go_finish = threading.Event()
         self.done = threading.Event()
         self.thread = None
+
+
+class SpyList(list):
+    """queued_scheduled_events with the GIL rule made explicit: `list.sort` with a PYTHON-level key (a function/lambda:
+    has __code__) gives other threads a chance to run between two key calls; a C-level key (operator.itemgetter, None)
+    does not.  If the agenda's next item is a 'K' (a scheduled callback from another thread, due any moment) and the
+    key is Python code, the callback runs in the middle of the sort, the way CPython would observe it."""
+
+    def sort(self, key=None, reverse=False):
+        env = ENV
+        if (key is not None and hasattr(key, "__code__") and env is not None and len(self) >= 2
+                and env.agenda and env.agenda[0][1] == "K"):
+            item = env.agenda.pop(0)
+            calls = [0]
+
+            def spying_key(x):
+                calls[0] += 1
+                if calls[0] == 2:
+                    env.apply((item[0], "S", item[2], item[3]))     # the other thread's callback: an append to this list
+                return key(x)
+            return list.sort(self, key=spying_key, reverse=reverse)  # CPython: ValueError("list modified during sort")
+        return list.sort(self, key=key, reverse=reverse)
 
 
 ENV = None  # the Env currently installed
@@ -213,6 +238,7 @@ class Env:
         if self.has_wake:
             self.inp.wakeup_read_fd = WAKE_FD
         self.trig = [self.inp.event_trigger(lambda id, k=k: Ev(id, "q%d" % k)) for k in range(2)]
+        self.inp.queued_scheduled_events = SpyList()
         self.sched = self.inp.scheduled_event_trigger(lambda when: SEv(when, self.next_sched_id))
         self.ts = [self.inp.threadsafe_event_trigger(lambda id, p=p: Ev(id, "i%d" % p)) for p in range(case["npipes"])]
 
@@ -371,7 +397,7 @@ class Env:
         elif kind == "T":
             self.log.append(("trigger", "q%d" % (item[2] % 2), item[2]))
             self.trig[item[2] % 2](id=item[2])
-        elif kind == "S":
+        elif kind in ("S", "K"):       # K = S whose callback may also land in the middle of a non-atomic sort (SpyList)
             self.log.append(("schedule", item[2], item[3]))
             self.next_sched_id = item[3]
             self.sched(item[2])
@@ -480,8 +506,8 @@ def enc_item(it):
         return "%s%d:%s" % (k, t, it[2] or "-")
     if k in "TYGW":
         return "%s%d:%d" % (k, t, it[2])
-    if k in "SX":
-        return "%s%d:%d:%d" % (k, t, it[2], it[3])
+    if k in "SXK":                  # for the model K is an ordinary schedule item: its sort is atomic
+        return "%s%d:%d:%d" % ("S" if k == "K" else k, t, it[2], it[3])
     return "%s%d" % (k, t)
 
 
@@ -902,6 +928,10 @@ def rand_case(r):
     for p in pend_done:
         t += r.choice([0, 0, 1, 4])
         agenda.append((t, "W", p))
+    s_idx = [i for i, a in enumerate(agenda) if a[1] == "S"]
+    if len(s_idx) >= 3 and r.random() < 0.3:
+        i = s_idx[-1]                      # another thread schedules while >= 2 events are queued: may hit a sort
+        agenda[i] = (agenda[i][0], "K") + tuple(agenda[i][2:])
     ops = []
     for _ in range(r.randint(1, 12)):
         if r.random() < 0.25:
@@ -918,6 +948,12 @@ def corpus():
         dict(thr=8, wake=1, npipes=0, agenda=[(1, "S", 0, 0), (2, "A", "61")], ops=[("r", 5), ("r", 0), ("r", 0)], tag="corpus"),
         dict(thr=8, wake=1, npipes=0, agenda=[(0, "S", 5, 0), (2, "G", 28), (3, "S", 3, 1)],
              ops=[("d", 0), ("r", 10), ("r", 0), ("r", 0)], tag="corpus"),
+        # D38 (fixed bd1d910): a scheduled callback from another thread while the request sorts two queued events: with a
+        # Python-level sort key the append lands inside list.sort -> ValueError and the event is lost (SpyList)
+        dict(thr=8, wake=1, npipes=0, agenda=[(0, "S", 5, 0), (0, "S", 3, 1), (1, "K", 4, 2)],
+             ops=[("d", 0), ("r", 0), ("d", 7), ("r", 0), ("r", 0), ("r", 0), ("r", 0)], tag="corpus"),
+        dict(thr=8, wake=1, npipes=0, agenda=[(0, "S", 9, 0), (0, "S", 9, 1), (2, "A", "61"), (3, "K", 1, 2)],
+             ops=[("d", 0), ("r", 5), ("r", 5), ("d", 9), ("r", 0), ("r", 0), ("r", 0)], tag="corpus"),
         # D12 (C03's finding) seen from C08: Esc then a non-ASCII character available together
         dict(thr=8, wake=1, npipes=0, agenda=[(0, "A", "1bc3a9")], ops=[("d", 0), ("r", 0), ("r", 0), ("r", 0)], tag="D12"),
         # D35: ill-formed UTF-8 in mid-stream: c3 then 'A' - the valid 'A' is lost with it
